@@ -711,6 +711,17 @@ def search(ctx):
 
 def replay(ctx, data):
     print(json.dumps(data, indent=1, default=str)[:2500])
+    if 'split_e2e' in data:
+        c = data['split_e2e']
+        for mt in c['moltypes']:
+            mt['bonds'] = [tuple(b) for b in mt['bonds']]
+        with systems.Workdir() as wd:
+            res = systems.run_gen_coords(wd, systems.top_text(c['moltypes'], [tuple(m) for m in c['molecules']]), split=list(c['split']),
+                                         box=np.array([8.0, 8.0, 8.0]), timeout=60, maxiter=200, seed=1)
+        print('replay: gen_coords -split', c['split'], '->', 'ok' if res['ok'] else f"{res['exc_type']}: {res.get('exception')}")
+        for r in (res.get('rows') or []):
+            print('replay:', r['resid'], r['resname'], r['name'])
+        return 0 if res['ok'] else 1
     if 'pipeline_case' in data:
         case = data['pipeline_case']
         case['blocks'] = [(n, lo, hi, [tuple(d) for d in ds]) for n, lo, hi, ds in case['blocks']]
